@@ -100,6 +100,49 @@ example : outNat (exec exSem exN 10 [5] ()) = some [5] := by decide
 example : outNat (exec exSem exL 10 [5] ()) = some [5] := by decide
 example : outNat (exec exSem exLbad 10 [5] ()) = some [7] := by decide
 
+/-! ### whole programs
+
+`lift_validator_sound_partial` is per function and for every meaning of the call instructions.
+Closing it under calls: when the meaning of a call instruction is "run the callee's body" (naive
+bodies in the naive program, lifted bodies in the lifted program, nested to any depth `d`), two
+programs whose functions are pairwise accepted by the validator behave equally. -/
+
+/-- Whole-program soundness: pairwise validated function tables give equal behaviour of every
+function under the semantics in which calls execute the callee's body (any call depth, any base
+semantics of the remaining instructions, any way `callee`/`ret` of resolving calls from values). -/
+theorem program_lift_sound_partial {V W : Type} (P : PSem V W) (Ns Ls : List Core.Fn) (hlen : Ns.length = Ls.length)
+    (h : ∀ (g : Nat) (N L : Core.Fn), Ns[g]? = some N → Ls[g]? = some L → ∃ ρ cert, liftCheck N L ρ cert = true)
+    (d g : Nat) (N L : Core.Fn) (hN : Ns[g]? = some N) (hL : Ls[g]? = some L) (args : List V) (w : W) :
+    exec (semD P Ns d) N P.fuel args w = exec (semD P Ls d) L P.fuel args w := by
+  have ht := tabEquiv_of_liftCheck hlen h
+  rw [semD_eq P ht d]
+  exact ht.2 g N L hN hL V W _ _ _ _
+
+/-- non-vacuity: function 1 calls function 0 (the loop example) and adds one -/
+def exCaller : Core.Fn := { nparams := 1, recover := none, blocks := [
+  { preds := [], phis := [], body := [.op 1 "call:loop" [.reg 0], .op 2 "g" [.reg 1]], term := .ret [.reg 2] }] }
+
+def exP : PSem Nat Unit :=
+  { base := exSem, fuel := 10,
+    callee := fun f vs _ => if f = "call:loop" then some (0, vs) else none,
+    ret := fun _ _ o => match o with
+      | .ret [v] w => .ok v w
+      | _ => .abort 0 () }
+
+example : outNat (exec (semD exP [exN, exCaller] 1) exCaller 10 [5] ()) = some [6] := by decide
+example : outNat (exec (semD exP [exL, exCaller] 1) exCaller 10 [5] ()) = some [6] := by decide
+
+example (d : Nat) (args : List Nat) :
+    exec (semD exP [exN, exCaller] d) exCaller exP.fuel args () = exec (semD exP [exL, exCaller] d) exCaller exP.fuel args () :=
+  program_lift_sound_partial exP [exN, exCaller] [exL, exCaller] rfl
+    (by
+      intro g N L hN hL
+      match g with
+      | 0 => simp at hN hL; subst hN; subst hL; exact ⟨exRho, exCert, by decide⟩
+      | 1 => simp at hN hL; subst hN; subst hL; exact ⟨[(0, 0), (1, 1), (2, 2)], [[]], by decide⟩
+      | g + 2 => simp at hN)
+    d 1 exCaller exCaller rfl rfl args ()
+
 /-! ### arithmetic of the reference interpreter -/
 
 theorem emod_eq (a b : Int) : a.emod b = a % b := rfl
